@@ -484,6 +484,10 @@ void reb_simulation_save_to_file(struct reb_simulation* const r, const char* fil
 #else // MPI
         FILE* of = fopen(filename,"r+b");
 #endif // MPI
+        if (of==NULL){
+            reb_simulation_error(r, "Can not open file.");
+            return;
+        }
         fseek(of, 64, SEEK_SET); // Header
         struct reb_binary_field field = {0};
         struct reb_simulationarchive_blob blob = {0};
@@ -495,6 +499,7 @@ void reb_simulation_save_to_file(struct reb_simulation* const r, const char* fil
         int64_t size_old = ftell(of);
         if (bytesread!=1){
             reb_simulation_warning(r, "Simulationarchive appears to be corrupted. A recovery attempt has failed. No snapshot has been saved.\n");
+            fclose(of);
             return;
         }
 
